@@ -156,7 +156,18 @@ def sensitivity(fn, *args, rel=1e-13, trials=3):
         o = call(fn, *pert)
         if o.ok and np.asarray(o.value).shape == b.shape:
             worst = max(worst, float(np.nanmax(np.abs(np.asarray(o.value, float) - b))))
-    return worst / rel * 2.2e-16
+    worst = worst / rel * 2.2e-16
+    # cancellation inside the formula (a closed form whose raw result is a small difference of O(1) terms, normalised afterwards) does not show under
+    # input perturbation: the map itself is smooth there.  It shows when the samples are rescaled - the same directions, every rounding inside redrawn.
+    # (used only when the change is itself small: an estimator that is not scale-free is not excused by this)
+    if len(args) == 2 and all(np.ndim(x) == 1 for x in args):
+        for ca, cm in ((3.0, 7.0), (1.0 / 3.0, 0.1), (1.7, 1.0 / 7.0)):
+            o = call(fn, args[0] * ca, args[1] * cm)
+            if o.ok and np.asarray(o.value).shape == b.shape:
+                ch = float(np.nanmax(np.abs(np.asarray(o.value, float) - b)))
+                if ch < 1e-7:
+                    worst = max(worst, ch / 20.0)
+    return worst
 
 
 def cmp_rows(ctx, route, batch_out, singles, tol, what="batch row = single item", sens=None):
